@@ -54,7 +54,7 @@ After(cfg, st) ==
      THEN (IF st.redirs + 1 > cfg.settings.maxRedir
            THEN [st EXCEPT !.expect = [k |-> "err", what |-> "TooManyRedirections"], !.lastStatus = nd.status]
            ELSE IF nd.loc.kind \in {"none", "unparsable", "otherscheme", "mailto"}
-           THEN [st EXCEPT !.expect = [k |-> "err", what |-> "any"], !.lastStatus = nd.status]
+           THEN [st EXCEPT !.expect = [k |-> "err", what |-> "loc-" \o nd.loc.kind], !.lastStatus = nd.status]
            ELSE [st EXCEPT !.cur = Resolve(st.cur, nd.loc), !.redirs = @ + 1, !.expect = [k |-> "request"], !.lastStatus = nd.status])
      ELSE [st EXCEPT !.expect = [k |-> "ok", status |-> nd.status], !.lastStatus = nd.status]
 
@@ -199,11 +199,21 @@ G12_refusalBodyCapped(cfg, st, d) ==
   (st.expect.k = "err" /\ st.expect.what = "ConnectError" /\ d.res = "err") =>
      (d.cbodyLen <= 10240 /\ d.cbodyLcp = d.cbodyLen /\ d.cbodyLen <= cfg.connect.body)
 G05_returns(cfg, st, d) == d.res # "panic"
-DoneGuards == {"G09_outcome", "G09_finalUrl", "G12_refusalReported", "G12_refusalBodyCapped", "G05_returns"}
+\* beyond the listed properties (reported as a note): which error kind names an unusable redirect
+X_redirectErrorKind(cfg, st, d) ==
+  (st.expect.k = "err" /\ d.res = "err") =>
+     CASE st.expect.what = "loc-none" -> d.kind = "InvalidResponse:LocationHeader"
+       [] st.expect.what = "loc-unparsable" -> d.kind = "InvalidResponse:RedirectionUrl"
+       [] st.expect.what = "loc-otherscheme" -> d.kind = "InvalidBaseUrl"
+       [] st.expect.what = "loc-mailto" -> d.kind \in {"InvalidUrlHost", "InvalidBaseUrl"}
+       [] OTHER -> TRUE
+DoneGuards == {"G09_outcome", "G09_finalUrl", "G12_refusalReported", "G12_refusalBodyCapped", "G05_returns", "X_redirectErrorKind"}
 DoneGuard(g, cfg, st, d) ==
   CASE g = "G09_outcome" -> G09_outcome(cfg, st, d) [] g = "G09_finalUrl" -> G09_finalUrl(cfg, st, d)
     [] g = "G12_refusalReported" -> G12_refusalReported(cfg, st, d) [] g = "G05_returns" -> G05_returns(cfg, st, d)
     [] g = "G12_refusalBodyCapped" -> G12_refusalBodyCapped(cfg, st, d)
-DoneProp(g) == CASE g \in {"G12_refusalReported", "G12_refusalBodyCapped"} -> "C12" [] g = "G05_returns" -> "C05" [] OTHER -> "C09"
+    [] g = "X_redirectErrorKind" -> X_redirectErrorKind(cfg, st, d)
+DoneProp(g) == CASE g \in {"G12_refusalReported", "G12_refusalBodyCapped"} -> "C12" [] g = "G05_returns" -> "C05"
+                 [] g = "X_redirectErrorKind" -> "X-error-kinds" [] OTHER -> "C09"
 DoneViolations(cfg, st, d) == {g \in DoneGuards : ~DoneGuard(g, cfg, st, d)}
 =============================================================================
